@@ -7,12 +7,19 @@ joins (`Model/Nucleo.lean`): every run in flight is joined by a later `tick_inne
 cancelling tick joins the run it cancels and immediately spawns the next one, `restart` makes the next run a cleared
 one on the new stream.  The invariant `P07` carries the worker-level facts (`Between`, or the start condition of the
 pending run) through every event; a tick that reports `running = false` then leaves a snapshot that *is* the right
-list.  Patterns are non-empty here (the empty pattern takes `process_new_items_trivial`, `C06_trivial_run_contract`). -/
+list.  Which pattern ids denote the empty pattern is a parameter (`emp`); a run for the empty pattern takes
+`reset_matches` + `process_new_items_trivial` (`C06_trivial_run_contract`) and cannot be cancelled, every other run goes
+through the scoring pass.  `EmpOk`: the empty pattern matches every item with score 0. -/
 namespace NucleoVerif.Nu
 
 variable (score : Nat → Item → Option Nat) (len : Item → Nat)
 -- the eventual content of every item stream
 variable (S : Nat → Nat → Option Item)
+-- which pattern ids are the empty pattern
+variable (emp : Nat → Bool)
+
+/-- the empty pattern matches every item, with score 0 -/
+def EmpOk : Prop := ∀ p it, emp p = true → score p it = some 0
 
 /-- an appended edit can only narrow the matches -/
 def Narrows (pNew pOld : Nat) : Prop := ∀ it, (score pNew it).isSome = true → (score pOld it).isSome = true
@@ -37,6 +44,178 @@ theorem Good.of_empty (Sx : Nat → Option Item) (w : Worker) (h1 : w.hits = [])
   refine ⟨?_, ⟨by rw [h3]; exact List.nodup_nil, by rw [h3]; intro i hi; cases hi⟩⟩
   have : processed w = [] := by unfold processed keepIdx; rw [h2]; rfl
   rw [h1, this]; exact List.Perm.refl _
+
+
+/-! ## accounted items are published items -/
+
+/-- every index the worker accounts for holds a published item of the stream -/
+def Pub (Sx : Nat → Option Item) (w : Worker) : Prop := ∀ i ∈ processed w, (Sx i).isSome = true
+
+theorem Pub.of_empty (Sx : Nat → Option Item) (w : Worker) (h2 : w.lastSnapshot = 0) : Pub Sx w := by
+  intro i hi
+  rw [mem_processed, h2] at hi
+  exact absurd hi.1 (Nat.not_lt_zero _)
+
+theorem Pub.congr {Sx : Nat → Option Item} {w w' : Worker} (h : Pub Sx w) (h2 : w'.inFlight = w.inFlight) (h3 : w'.lastSnapshot = w.lastSnapshot) :
+    Pub Sx w' := by
+  intro i hi
+  have : processed w' = processed w := by unfold processed; rw [h2, h3]
+  rw [this] at hi
+  exact h i hi
+
+/-- the in-flight list after a run (any status, empty or non-empty pattern, completed or cancelled): some of the old
+    in-flight indices (the dropped ones were seen published when the run began) and the unpublished new ones -/
+theorem run_inFlight (w : Worker) (st : PStatus) (pe : Bool) (o : Obs) (bk : BK w) (hc : w.lastSnapshot ≤ o.count)
+    (hord : ∀ l, (o.inFlightOrder l).Perm l) :
+    ∃ old : List Nat, (∀ i ∈ w.inFlight, i ∉ old → (o.seen0 i).isSome = true) ∧
+      (Worker.run score len w st false pe o).1.inFlight.Perm
+        (old ++ ((List.range (o.count - w.lastSnapshot)).map (· + w.lastSnapshot)).filter (fun i => (o.seen1 i).isNone)) ∧
+      (Worker.run score len w st false pe o).1.lastSnapshot = o.count := by
+  have hb : (w.begin false) = { w with running := true, wasCanceled := false } := by simp [Worker.begin]
+  have hsortp := (C06_in_flight_sorted w.inFlight).2
+  have rs := resetMatches_spec (w.begin false) o.seen0 (by rw [hb]; exact bk.below) (by rw [hb]; exact bk.nodup)
+  rw [hb] at rs
+  simp only at rs
+  obtain ⟨_, r2, r3, _⟩ := rs
+  have hstill_cov : ∀ i ∈ w.inFlight, i ∉ (sortNat w.inFlight).filter (fun i => (o.seen0 i).isNone) → (o.seen0 i).isSome = true := by
+    intro i hi hn
+    cases h : o.seen0 i with
+    | some _ => rfl
+    | none => exact absurd (List.mem_filter.mpr ⟨hsortp.symm.subset hi, by simp [h]⟩) hn
+  unfold Worker.run
+  by_cases hpe : pe = true
+  · simp only [hpe, if_true]
+    rw [hb]
+    have pt := processTrivial_spec (resetMatches { w with running := true, wasCanceled := false } o.seen0) o.seen1 o.count (by rw [r3]; exact hc)
+    rw [r2, r3] at pt
+    exact ⟨_, hstill_cov, by rw [pt.2.1], pt.2.2.1⟩
+  simp only [hpe, Bool.false_eq_true, if_false]
+  rw [hb]
+  have fb := finish_bookkeeping len (Worker.scorePass score { w with running := true, wasCanceled := false } st o).1
+    (Worker.scorePass score { w with running := true, wasCanceled := false } st o).2.1
+    (Worker.scorePass score { w with running := true, wasCanceled := false } st o).2.2 o
+  have key : ∃ old : List Nat, (∀ i ∈ w.inFlight, i ∉ old → (o.seen0 i).isSome = true) ∧
+      (Worker.scorePass score { w with running := true, wasCanceled := false } st o).1.inFlight.Perm
+        (old ++ ((List.range (o.count - w.lastSnapshot)).map (· + w.lastSnapshot)).filter (fun i => (o.seen1 i).isNone)) ∧
+      (Worker.scorePass score { w with running := true, wasCanceled := false } st o).1.lastSnapshot = o.count := by
+    unfold Worker.scorePass
+    simp only
+    by_cases hst : st = .rescore
+    · simp only [hst, if_true]
+      generalize hw1 : resetMatches { w with running := true, wasCanceled := false } o.seen0 = w1 at r2 r3
+      split
+      · have pt := processTrivial_spec w1 o.seen1 o.count (by rw [r3]; exact hc)
+        rw [r2, r3] at pt
+        refine ⟨_, hstill_cov, ?_, ?_⟩
+        · show (rescore score _ o).1.inFlight.Perm _
+          unfold rescore; simp only; rw [pt.2.1]
+        · show (rescore score _ o).1.lastSnapshot = _
+          unfold rescore; simp only; exact pt.2.2.1
+      · have pn := processNew_bookkeeping score w1 o hord
+        rw [r2, r3] at pn
+        refine ⟨_, fun i hi hn => ?_, pn.1, pn.2⟩
+        cases h : o.seen0 i with
+        | some _ => rfl
+        | none =>
+          exact absurd (List.mem_filter.mpr ⟨List.mem_filter.mpr ⟨hsortp.symm.subset hi, by simp [h]⟩, by simp [h]⟩) hn
+    · simp only [hst, if_false]
+      split
+      · have pt := processTrivial_spec { w with running := true, wasCanceled := false } o.seen1 o.count hc
+        refine ⟨w.inFlight, fun i hi hn => absurd hi hn, ?_, ?_⟩
+        · show (rescore score _ o).1.inFlight.Perm _
+          unfold rescore; simp only; rw [pt.2.1]
+        · show (rescore score _ o).1.lastSnapshot = _
+          unfold rescore; simp only; exact pt.2.2.1
+      · have pn := processNew_bookkeeping score { w with running := true, wasCanceled := false } o hord
+        refine ⟨_, fun i hi hn => ?_, pn.1, pn.2⟩
+        cases h : o.seen0 i with
+        | some _ => rfl
+        | none => exact absurd (List.mem_filter.mpr ⟨hi, by simp [h]⟩) hn
+  obtain ⟨old, h1, h3, h4⟩ := key
+  exact ⟨old, h1, by rw [fb.1]; exact h3, by rw [fb.2]; exact h4⟩
+
+/-- an index accounted for after a run was either accounted for before, or was in flight and seen published when the run
+    began, or is new and was seen published by the run -/
+theorem run_processed_cases (w : Worker) (st : PStatus) (pe : Bool) (o : Obs) (bk : BK w) (hc : w.lastSnapshot ≤ o.count)
+    (hord : ∀ l, (o.inFlightOrder l).Perm l) (i : Nat) (hi : i ∈ processed (Worker.run score len w st false pe o).1) :
+    (i < w.lastSnapshot ∧ i ∉ w.inFlight) ∨ (i ∈ w.inFlight ∧ (o.seen0 i).isSome = true) ∨
+      (w.lastSnapshot ≤ i ∧ (o.seen1 i).isSome = true) := by
+  obtain ⟨old, hcov, hperm, hlast⟩ := run_inFlight score len w st pe o bk hc hord
+  rw [mem_processed, hlast] at hi
+  obtain ⟨hlt, hnot⟩ := hi
+  have h1 : i ∉ old := fun h => hnot (hperm.symm.subset (List.mem_append_left _ h))
+  have h2 : i ∉ ((List.range (o.count - w.lastSnapshot)).map (· + w.lastSnapshot)).filter (fun i => (o.seen1 i).isNone) :=
+    fun h => hnot (hperm.symm.subset (List.mem_append_right _ h))
+  by_cases hold : i < w.lastSnapshot
+  · by_cases hfl : i ∈ w.inFlight
+    · exact Or.inr (Or.inl ⟨hfl, hcov i hfl h1⟩)
+    · exact Or.inl ⟨hold, hfl⟩
+  · refine Or.inr (Or.inr ⟨by omega, ?_⟩)
+    have hmem : i ∈ (List.range (o.count - w.lastSnapshot)).map (· + w.lastSnapshot) :=
+      (new_range_mem w.lastSnapshot o.count hc i).mpr ⟨by omega, hlt⟩
+    cases h : o.seen1 i with
+    | some _ => rfl
+    | none => exact absurd (List.mem_filter.mpr ⟨hmem, by simp [h]⟩) h2
+
+/-- **accounted items stay published items through every run** -/
+theorem run_pub (Sx : Nat → Option Item) (w : Worker) (st : PStatus) (pe : Bool) (o : Obs) (bk : BK w) (env : ObsEnv Sx w o)
+    (hp : Pub Sx w) : Pub Sx (Worker.run score len w st false pe o).1 := by
+  intro i hi
+  have of_seen1 : (o.seen1 i).isSome = true → (Sx i).isSome = true := by
+    intro h
+    cases h1 : o.seen1 i with
+    | none => rw [h1] at h; cases h
+    | some it => rw [env.sound1 i it h1]; rfl
+  rcases run_processed_cases score len w st pe o bk env.countGe env.order i hi with ⟨h1, h2⟩ | ⟨_, h2⟩ | ⟨_, h2⟩
+  · exact hp i ((mem_processed w i).mpr ⟨h1, h2⟩)
+  · cases h0 : o.seen0 i with
+    | none => rw [h0] at h2; cases h2
+    | some it => exact of_seen1 (by rw [env.mono i it h0]; rfl)
+  · exact of_seen1 h2
+
+/-- for the empty pattern the right list is every accounted item with score 0 -/
+theorem idealHits_emp (hemp : EmpOk score emp) (Sx : Nat → Option Item) (p : Nat) (hp : emp p = true) :
+    ∀ (P : List Nat), (∀ i ∈ P, (Sx i).isSome = true) → idealHits score Sx p P = P.map mk0 := by
+  intro P
+  induction P with
+  | nil => intro _; rfl
+  | cons i t ih =>
+    intro h
+    have hi := h i (by simp)
+    unfold idealHits at ih ⊢
+    simp only [List.filterMap_cons, List.map_cons]
+    cases hs : Sx i with
+    | none => rw [hs] at hi; cases hi
+    | some it =>
+      simp only [Option.bind_some, hemp p it hp, Option.map_some]
+      rw [ih (fun j hj => h j (by simp [hj]))]
+      rfl
+
+theorem run_emp_status (w : Worker) (st : PStatus) (c : Bool) (o : Obs) :
+    Worker.run score len w st c true o = Worker.run score len w .unchanged c true o := by
+  unfold Worker.run; simp
+
+/-- **a run for the empty pattern** leaves the right list from any state with intact bookkeeping whose accounted items
+    are published ones; it is never marked cancelled -/
+theorem run_emp_good (hemp : EmpOk score emp) (Sx : Nat → Option Item) (w : Worker) (st : PStatus) (o : Obs) (bk : BK w) (env : ObsEnv Sx w o)
+    (hp : Pub Sx w) (he : emp w.pattern = true) :
+    Good score Sx (Worker.run score len w st false true o).1 ∧ (Worker.run score len w st false true o).1.wasCanceled = false ∧
+    (Worker.run score len w st false true o).1.lastSnapshot = o.count ∧
+    (Worker.run score len w st false true o).1.hits = (processed (Worker.run score len w st false true o).1).map mk0 := by
+  have hpub := run_pub score len Sx w st true o bk env hp
+  rw [run_emp_status] at hpub ⊢
+  have h := C06_trivial_run_contract score len w o bk env.countGe
+  simp only at h
+  obtain ⟨h1, h2, _, h4⟩ := h
+  have hpat : (Worker.run score len w .unchanged false true o).1.pattern = w.pattern :=
+    (Worker.run_runLike score len .unchanged false true o).pattern w
+  have hwc : (Worker.run score len w .unchanged false true o).1.wasCanceled = false := by
+    unfold Worker.run
+    simp only [if_true]
+    rw [(processTrivial_fields _ _ _).2.2, (resetMatches_fields _ _).2.2]
+    exact (begin_fields w false).2.2
+  refine ⟨⟨?_, h2⟩, hwc, h4, h1⟩
+  rw [h1, hpat, idealHits_emp score emp hemp Sx w.pattern he _ hpub]
 
 /-- **one run, from its start condition**: afterwards the worker is in a `Between` state; a run that did not see the
     cancel flag is not marked cancelled -/
@@ -73,51 +252,76 @@ theorem run_between (Sx : Nat → Option Item) (w : Worker) (st : PStatus) (o : 
 /-- `w'` is the result of the pending run `p` on the worker `w`, for some observations consistent with the stream;
     `mayCancel` says whether the run may have seen the cancel flag -/
 def RunsAs (p : Pending) (w w' : Worker) (mayCancel : Bool) : Prop :=
-  ∃ o : Obs, w' = (Worker.run score len w p.status p.cleared false o).1 ∧
+  ∃ o : Obs, w' = (Worker.run score len w p.status p.cleared (emp w.pattern) o).1 ∧
     RunObs score S p.status (if p.cleared then w.clearedState else w) o mayCancel
 
-/-- **joining a run**: from the start condition of the pending run to a `Between` state -/
-theorem join_between (p : Pending) (w w' : Worker) (mc : Bool) (hs : StartOk score S p w) (hr : RunsAs score len S p w w' mc) :
+/-- the worker a pending run effectively starts from (the cleared state after a restart), with its start condition -/
+theorem startWorker (p : Pending) (w : Worker) (pe : Bool) (o : Obs) (hs : StartOk score S p w)
+    (hpub : p.cleared = false → Pub (S w.stream) w) :
+    ∃ w0 : Worker, w0 = (if p.cleared then w.clearedState else w) ∧ w0.stream = w.stream ∧ w0.pattern = w.pattern ∧
+      Worker.run score len w p.status p.cleared pe o = Worker.run score len w0 p.status false pe o ∧
+      StartKeep score S p.status w0 ∧ Pub (S w0.stream) w0 := by
+  cases hc : p.cleared with
+  | true =>
+    refine ⟨w.clearedState, by simp, rfl, rfl, by rw [run_cleared], ?_, Pub.of_empty _ _ rfl⟩
+    have g : Good score (S w.clearedState.stream) w.clearedState := Good.of_empty score _ _ rfl rfl rfl
+    cases hst : p.status with
+    | rescore => exact Or.inl ⟨rfl, BK_cleared w⟩
+    | update => exact Or.inr (Or.inl ⟨rfl, g.loose score (by show 0 < PLACE; simp [PLACE])⟩)
+    | unchanged => exact Or.inr (Or.inr ⟨rfl, g⟩)
+  | false =>
+    refine ⟨w, by simp, rfl, rfl, rfl, ?_, hpub hc⟩
+    rcases hs with h | h
+    · rw [hc] at h; cases h
+    · exact h
+
+theorem StartKeep.bk {st : PStatus} {w : Worker} (h : StartKeep score S st w) : BK w := by
+  rcases h with ⟨_, b⟩ | ⟨_, l⟩ | ⟨_, g⟩
+  · exact b
+  · exact l.bk
+  · exact g.bk
+
+/-- **joining a run**: from the start condition of the pending run to a `Between` state whose accounted items are
+    published ones -/
+theorem join_between (hemp : EmpOk score emp) (p : Pending) (w w' : Worker) (mc : Bool) (hs : StartOk score S p w)
+    (hpub : p.cleared = false → Pub (S w.stream) w) (hr : RunsAs score len S emp p w w' mc) :
     Between score (S w.stream) w' ∧ w'.running = true ∧ w'.pattern = w.pattern ∧ w'.stream = w.stream ∧
-    (mc = false → w'.wasCanceled = false) := by
+    (mc = false → w'.wasCanceled = false) ∧ Pub (S w.stream) w' := by
   obtain ⟨o, hw', ho⟩ := hr
-  have rl := Worker.run_runLike score len p.status p.cleared false o
+  have rl := Worker.run_runLike score len p.status p.cleared (emp w.pattern) o
   have hrun : w'.running = true := by rw [hw']; exact rl.running w
   have hpat : w'.pattern = w.pattern := by rw [hw']; exact rl.pattern w
   have hstr : w'.stream = w.stream := by rw [hw']; exact rl.stream w
-  -- the worker the run effectively starts from
-  have key : ∃ w0 : Worker, w0 = (if p.cleared then w.clearedState else w) ∧ w0.stream = w.stream ∧ w0.pattern = w.pattern ∧
-      Worker.run score len w p.status p.cleared false o = Worker.run score len w0 p.status false false o ∧
-      StartKeep score S p.status w0 := by
-    cases hc : p.cleared with
-    | true =>
-      refine ⟨w.clearedState, by simp, rfl, rfl, by rw [run_cleared], ?_⟩
-      have g : Good score (S w.clearedState.stream) w.clearedState := Good.of_empty score _ _ rfl rfl rfl
-      cases hst : p.status with
-      | rescore => exact Or.inl ⟨rfl, BK_cleared w⟩
-      | update => exact Or.inr (Or.inl ⟨rfl, g.loose score (by show 0 < PLACE; simp [PLACE])⟩)
-      | unchanged => exact Or.inr (Or.inr ⟨rfl, g⟩)
-    | false =>
-      refine ⟨w, by simp, rfl, rfl, rfl, ?_⟩
-      rcases hs with h | h
-      · rw [hc] at h; cases h
-      · exact h
-  obtain ⟨w0, e0, e1, e2, e3, e4⟩ := key
+  obtain ⟨w0, e0, e1, e2, e3, e4, e5⟩ := startWorker score len S p w (emp w.pattern) o hs hpub
   rw [← e0] at ho
-  have hstart : (p.status = .rescore ∧ BK w0) ∨ (p.status = .update ∧ Loose score (S w0.stream) w0.pattern w0) ∨
-      (p.status = .unchanged ∧ Good score (S w0.stream) w0) := e4
-  have hc : o.canceled (Worker.scorePass score (w0.begin false) p.status o).2.2 = true ∨ RunEnv (S w0.stream) w0 o := by
-    rcases ho.cancel with ⟨_, h⟩ | h
-    · exact Or.inl h
-    · exact Or.inr h
-  obtain ⟨b, hu⟩ := run_between score len (S w0.stream) w0 p.status o hstart ho.env hc
-  rw [← e3, ← hw', e1] at b
-  refine ⟨b, hrun, hpat, hstr, fun hmc => ?_⟩
-  rcases ho.cancel with ⟨h, _⟩ | h
-  · rw [hmc] at h; cases h
-  · have := hu h
-    rw [← e3, ← hw'] at this
+  have hpub' : Pub (S w.stream) w' := by
+    have := run_pub score len (S w0.stream) w0 p.status (emp w.pattern) o (e4.bk score S) ho.env e5
+    rw [← e3, ← hw', e1] at this
     exact this
+  by_cases he : emp w.pattern = true
+  · -- the empty pattern: reset + trivial pass, never cancelled
+    rw [he] at e3 hw'
+    obtain ⟨g, hwc, hl, _⟩ := run_emp_good score len emp hemp (S w0.stream) w0 p.status o (e4.bk score S) ho.env e5 (by rw [e2]; exact he)
+    rw [← e3, ← hw'] at g hwc hl
+    rw [e1] at g
+    have hlt : w'.lastSnapshot < PLACE := by rw [hl]; exact ho.env.countLt
+    exact ⟨⟨by rw [hpat]; exact g.loose score hlt |> fun l => by rw [← hpat]; exact l, fun _ => g⟩, hrun, hpat, hstr, fun _ => hwc, hpub'⟩
+  · have he' : emp w.pattern = false := by simpa using he
+    rw [he'] at e3 hw'
+    have hstart : (p.status = .rescore ∧ BK w0) ∨ (p.status = .update ∧ Loose score (S w0.stream) w0.pattern w0) ∨
+        (p.status = .unchanged ∧ Good score (S w0.stream) w0) := e4
+    have hc : o.canceled (Worker.scorePass score (w0.begin false) p.status o).2.2 = true ∨ RunEnv (S w0.stream) w0 o := by
+      rcases ho.cancel with ⟨_, h⟩ | h
+      · exact Or.inl h
+      · exact Or.inr h
+    obtain ⟨b, hu⟩ := run_between score len (S w0.stream) w0 p.status o hstart ho.env hc
+    rw [← e3, ← hw', e1] at b
+    refine ⟨b, hrun, hpat, hstr, fun hmc => ?_, hpub'⟩
+    rcases ho.cancel with ⟨h, _⟩ | h
+    · rw [hmc] at h; cases h
+    · have := hu h
+      rw [← e3, ← hw'] at this
+      exact this
 
 
 /-! ## the protocol invariant -/
@@ -140,15 +344,17 @@ structure P07 (n : Nucleo) : Prop where
   str : n.state = .fresh → n.worker.stream = n.cur
   btw : n.pending = none → Between score (S n.worker.stream) n.worker
   sta : ∀ p, n.pending = some p → StartOk score S p n.worker
+  /-- the indices the worker accounts for are published items of its stream (unless the pending run starts by clearing) -/
+  pub : (∃ st, n.pending = some ⟨st, true⟩) ∨ Pub (S n.worker.stream) n.worker
 
 theorem P07.new : P07 score S Nucleo.new := by
   have g : Good score (S Nucleo.new.worker.stream) Nucleo.new.worker := Good.of_empty score _ _ rfl rfl rfl
   exact ⟨fun _ => rfl, fun _ h => by simp [Nucleo.new] at h, fun _ h => by simp [Nucleo.new] at h, fun _ h => by simp [Nucleo.new] at h,
-    fun h => by simp [Nucleo.new] at h, fun _ => ⟨g.loose score (by simp [Nucleo.new, PLACE]), fun _ => g⟩, fun p h => by simp [Nucleo.new] at h⟩
+    fun h => by simp [Nucleo.new] at h, fun _ => ⟨g.loose score (by simp [Nucleo.new, PLACE]), fun _ => g⟩, fun p h => by simp [Nucleo.new] at h, Or.inr (Pub.of_empty _ _ rfl)⟩
 
 theorem P07.restart {n : Nucleo} (h : P07 score S n) (c : Bool) : P07 score S (n.restart c) :=
   ⟨h.idle, fun _ hs => by simp [Nucleo.restart] at hs, fun _ hs => by simp [Nucleo.restart] at hs, fun _ hs => by simp [Nucleo.restart] at hs,
-   fun hs => by simp [Nucleo.restart] at hs, h.btw, h.sta⟩
+   fun hs => by simp [Nucleo.restart] at hs, h.btw, h.sta, h.pub⟩
 
 /-- `reparse`: the column is marked changed; an appended edit (status `Update`) narrows the previous pattern and is
     only reported when no rescore is already due -/
@@ -156,7 +362,7 @@ def ReparseOk (n : Nucleo) (p : Nat) (s : PStatus) : Prop :=
   s ≠ .unchanged ∧ (s = .update → Narrows score p n.pattern ∧ n.status ≠ .rescore)
 
 theorem P07.reparse {n : Nucleo} (h : P07 score S n) (p : Nat) (s : PStatus) (ok : ReparseOk score n p s) : P07 score S (n.reparse p s) := by
-  refine ⟨h.idle, h.mirror, fun hu _ => absurd hu ok.1, fun hu hf => ?_, h.str, h.btw, h.sta⟩
+  refine ⟨h.idle, h.mirror, fun hu _ => absurd hu ok.1, fun hu hf => ?_, h.str, h.btw, h.sta, h.pub⟩
   have hu' : s = .update := hu
   obtain ⟨hn, hr⟩ := ok.2 hu'
   show Narrows score p n.worker.pattern
@@ -166,18 +372,19 @@ theorem P07.reparse {n : Nucleo} (h : P07 score S n) (p : Nat) (s : PStatus) (ok
   | update => exact hn.trans score (h.upd hst hf)
 
 theorem P07.addInjector {n : Nucleo} (h : P07 score S n) (k : Nat) : P07 score S (n.addInjector k) :=
-  ⟨h.idle, h.mirror, h.pat, h.upd, h.str, h.btw, h.sta⟩
+  ⟨h.idle, h.mirror, h.pat, h.upd, h.str, h.btw, h.sta, h.pub⟩
 theorem P07.dropInjector {n : Nucleo} (h : P07 score S n) (k : Nat) : P07 score S (n.dropInjector k) :=
-  ⟨h.idle, h.mirror, h.pat, h.upd, h.str, h.btw, h.sta⟩
+  ⟨h.idle, h.mirror, h.pat, h.upd, h.str, h.btw, h.sta, h.pub⟩
 theorem P07.cloneInjector {n : Nucleo} (h : P07 score S n) (a b : Nat) : P07 score S (n.cloneInjector a b) := by
   unfold Nucleo.cloneInjector; split
-  · exact ⟨h.idle, h.mirror, h.pat, h.upd, h.str, h.btw, h.sta⟩
+  · exact ⟨h.idle, h.mirror, h.pat, h.upd, h.str, h.btw, h.sta, h.pub⟩
   · exact h
 
 /-- the state a `tick_inner` that holds the lock works on -/
 structure Joined07 (m : Nucleo) : Prop where
   noPending : m.pending = none
   btw : Between score (S m.worker.stream) m.worker
+  pub : Pub (S m.worker.stream) m.worker
   fresh : m.state = .fresh →
     (m.worker.running = true ∧ m.worker.wasCanceled = false) ∨
     (m.worker.running = false ∧ m.snapshot = m.snapshot.update m.worker ∧ m.worker.wasCanceled = false)
@@ -221,7 +428,8 @@ theorem locked_step07 (m : Nucleo) (k : Nat) (hj : Joined07 score S m) (hf : m.s
   · -- more items than the worker has processed: a run with the unchanged pattern is spawned
     simp only [hc, if_true, hnc, Bool.false_eq_true, if_false]
     refine ⟨⟨fun h => by simp at h, fun h => by simp at h, fun _ _ => rfl, fun _ _ => Narrows.refl score _, fun _ => by show m.workerAfter.stream = m.cur; rw [a6]; exact hs,
-      fun h => by simp at h, fun p hpp => ?_⟩, fun h => by simp at h⟩
+      fun h => by simp at h, fun p hpp => ?_,
+      Or.inr (by show Pub (S m.workerAfter.stream) _; rw [a6]; exact hj.pub.congr a2 a3)⟩, fun h => by simp at h⟩
     simp only [Option.some.injEq] at hpp
     subst hpp
     right; right; right
@@ -236,7 +444,8 @@ theorem locked_step07 (m : Nucleo) (k : Nat) (hj : Joined07 score S m) (hf : m.s
     refine ⟨⟨fun _ => a7, fun _ _ => ⟨by show m.snapAfter = m.snapAfter.update m.workerAfter; rw [hsnap]; unfold Snapshot.update; simp only [a1, a4, a6]; unfold Worker.itemCount; rw [a2, a3], by rw [a5]; exact hwc⟩,
       fun _ _ => by show m.workerAfter.pattern = m.pattern; rw [a4]; exact hp,
       fun _ _ => by show Narrows score m.pattern m.workerAfter.pattern; rw [a4, hp]; exact Narrows.refl score _,
-      fun _ => by show m.workerAfter.stream = m.cur; rw [a6]; exact hs, fun _ => hb', fun p hpp => by rw [hj.noPending] at hpp; cases hpp⟩, fun _ => ?_⟩
+      fun _ => by show m.workerAfter.stream = m.cur; rw [a6]; exact hs, fun _ => hb', fun p hpp => (by rw [hj.noPending] at hpp; cases hpp),
+      Or.inr (by show Pub (S m.workerAfter.stream) m.workerAfter; rw [a6]; exact hj.pub.congr a2 a3)⟩, fun _ => ?_⟩
     refine ⟨by show m.snapAfter = m.snapAfter.update m.workerAfter; rw [hsnap]; unfold Snapshot.update; simp only [a1, a4, a6]; unfold Worker.itemCount; rw [a2, a3],
       ?_, by show k ≤ m.workerAfter.itemCount; unfold Worker.itemCount; rw [a2, a3]; exact hk, by show m.workerAfter.pattern = m.pattern; rw [a4]; exact hp,
       by show m.workerAfter.stream = m.cur; rw [a6]; exact hs⟩
@@ -245,30 +454,41 @@ theorem locked_step07 (m : Nucleo) (k : Nat) (hj : Joined07 score S m) (hf : m.s
 
 
 /-- joining the run in flight (if any) -/
-theorem joinRun07 (n : Nucleo) (hbtw : n.pending = none → Between score (S n.worker.stream) n.worker)
-    (hsta : ∀ p, n.pending = some p → StartOk score S p n.worker) (run : Worker → Worker) (mc : Bool)
-    (hr : ∀ p, n.pending = some p → RunsAs score len S p n.worker (run n.worker) mc) :
+theorem joinRun07 (hemp : EmpOk score emp) (n : Nucleo) (hbtw : n.pending = none → Between score (S n.worker.stream) n.worker)
+    (hsta : ∀ p, n.pending = some p → StartOk score S p n.worker)
+    (hpub : (∃ st, n.pending = some ⟨st, true⟩) ∨ Pub (S n.worker.stream) n.worker) (run : Worker → Worker) (mc : Bool)
+    (hr : ∀ p, n.pending = some p → RunsAs score len S emp p n.worker (run n.worker) mc) :
     Between score (S (n.joinRun run).worker.stream) (n.joinRun run).worker ∧
     (n.joinRun run).worker.pattern = n.worker.pattern ∧ (n.joinRun run).worker.stream = n.worker.stream ∧
     (n.pending.isSome = true → (n.joinRun run).worker.running = true ∧ (mc = false → (n.joinRun run).worker.wasCanceled = false)) ∧
-    (n.pending = none → (n.joinRun run).worker = n.worker) := by
+    (n.pending = none → (n.joinRun run).worker = n.worker) ∧ Pub (S (n.joinRun run).worker.stream) (n.joinRun run).worker := by
   unfold Nucleo.joinRun
   cases hp : n.pending with
   | none =>
     simp only [Option.isSome_none, Bool.false_eq_true, if_false]
-    exact ⟨hbtw hp, trivial, trivial, fun hh => (by cases hh), fun _ => trivial⟩
+    refine ⟨hbtw hp, trivial, trivial, fun hh => (by cases hh), fun _ => trivial, ?_⟩
+    rcases hpub with ⟨st, h⟩ | h
+    · rw [hp] at h; cases h
+    · exact h
   | some p =>
     simp only [Option.isSome_some, if_true]
-    obtain ⟨b, r1, r2, r3, r4⟩ := join_between score len S p n.worker (run n.worker) mc (hsta p hp) (hr p hp)
-    exact ⟨by rw [r3]; exact b, r2, r3, fun _ => ⟨r1, r4⟩, fun hh => (by cases hh)⟩
+    have hpub' : p.cleared = false → Pub (S n.worker.stream) n.worker := by
+      intro hc
+      rcases hpub with ⟨st, h⟩ | h
+      · rw [hp] at h
+        have : p = ⟨st, true⟩ := Option.some.inj h
+        rw [this] at hc; cases hc
+      · exact h
+    obtain ⟨b, r1, r2, r3, r4, r5⟩ := join_between score len S emp hemp p n.worker (run n.worker) mc (hsta p hp) hpub' (hr p hp)
+    exact ⟨by rw [r3]; exact b, r2, r3, fun _ => ⟨r1, r4⟩, fun hh => (by cases hh), by rw [r3]; exact r5⟩
 
 /-- what the environment guarantees about the runs a tick joins: each is the pending run executed on the worker with
     observations consistent with the worker's stream; the run in flight may have seen the cancel flag only if this tick
     is a cancelling one, the run a cancelling tick spawns itself is not cancelled while that tick waits for it -/
 structure TickEnv07 (n : Nucleo) (o : TickOracle) : Prop where
-  run0 : ∀ p, n.pending = some p → RunsAs score len S p n.worker (o.run0 n.worker) n.tickCancels
+  run0 : ∀ p, n.pending = some p → RunsAs score len S emp p n.worker (o.run0 n.worker) n.tickCancels
   run1 : n.tickCancels = true → ∀ p, (({ n with shouldNotify := false } : Nucleo).tickCancelFirst o).1.pending = some p →
-    RunsAs score len S p (({ n with shouldNotify := false } : Nucleo).tickCancelFirst o).1.worker
+    RunsAs score len S emp p (({ n with shouldNotify := false } : Nucleo).tickCancelFirst o).1.worker
       (o.run1 (({ n with shouldNotify := false } : Nucleo).tickCancelFirst o).1.worker) false
 
 /-- what a tick that reports `running = false` leaves behind -/
@@ -277,18 +497,18 @@ def Settled (n' : Nucleo) (pat count : Nat) : Prop :=
   n'.worker.pattern = pat ∧ n'.worker.stream = n'.cur
 
 /-- the only `tick_inner` of a non-cancelling tick -/
-theorem tickPlain07 (n : Nucleo) (h : P07 score S n) (o : TickOracle)
-    (hr : ∀ p, n.pending = some p → RunsAs score len S p n.worker (o.run0 n.worker) false)
+theorem tickPlain07 (hemp : EmpOk score emp) (n : Nucleo) (h : P07 score S n) (o : TickOracle)
+    (hr : ∀ p, n.pending = some p → RunsAs score len S emp p n.worker (o.run0 n.worker) false)
     (hst : n.status = .unchanged) (hf : n.state = .fresh) :
     P07 score S (n.tickPlain o).1 ∧ ((n.tickPlain o).2.running = false → Settled score S (n.tickPlain o).1 n.pattern o.count1) := by
   unfold Nucleo.tickPlain
   split
   · unfold tickInnerTimeout
-    exact ⟨⟨h.idle, h.mirror, h.pat, h.upd, h.str, h.btw, h.sta⟩, fun hh => by simp at hh⟩
+    exact ⟨⟨h.idle, h.mirror, h.pat, h.upd, h.str, h.btw, h.sta, h.pub⟩, fun hh => by simp at hh⟩
   · have hfj := joinRun_fields n o.run0
-    obtain ⟨j1, j2, j3, j4, j5⟩ := joinRun07 score len S n h.btw h.sta o.run0 false hr
+    obtain ⟨j1, j2, j3, j4, j5, j6⟩ := joinRun07 score len S emp hemp n h.btw h.sta h.pub o.run0 false hr
     have hj : Joined07 score S (n.joinRun o.run0) := by
-      refine ⟨hfj.2.2.2.1, j1, fun _ => ?_⟩
+      refine ⟨hfj.2.2.2.1, j1, j6, fun _ => ?_⟩
       cases hp : n.pending with
       | none =>
         right
@@ -311,12 +531,13 @@ theorem tickPlain07 (n : Nucleo) (h : P07 score S n) (o : TickOracle)
 
 /-- the first `tick_inner` of a cancelling tick: the run in flight is joined (cancelled or not), and the next run is
     spawned with the current pattern, on the current stream, with its start condition established -/
-theorem cancelFirst07 (n : Nucleo) (h : P07 score S n) (o : TickOracle)
-    (hr : ∀ p, n.pending = some p → RunsAs score len S p n.worker (o.run0 n.worker) true) (hc : n.tickCancels = true) :
+theorem cancelFirst07 (hemp : EmpOk score emp) (n : Nucleo) (h : P07 score S n) (o : TickOracle)
+    (hr : ∀ p, n.pending = some p → RunsAs score len S emp p n.worker (o.run0 n.worker) true) (hc : n.tickCancels = true) :
     (n.tickCancelFirst o).1.state = .fresh ∧ (n.tickCancelFirst o).1.pending = some ⟨n.status, n.state.canceled⟩ ∧
     (n.tickCancelFirst o).1.worker.pattern = n.pattern ∧ (n.tickCancelFirst o).1.worker.stream = n.cur ∧
     (n.tickCancelFirst o).1.status = .unchanged ∧ (n.tickCancelFirst o).1.pattern = n.pattern ∧ (n.tickCancelFirst o).1.cur = n.cur ∧
-    StartOk score S ⟨n.status, n.state.canceled⟩ (n.tickCancelFirst o).1.worker := by
+    StartOk score S ⟨n.status, n.state.canceled⟩ (n.tickCancelFirst o).1.worker ∧
+    (n.state.canceled = false → Pub (S (n.tickCancelFirst o).1.worker.stream) (n.tickCancelFirst o).1.worker) := by
   generalize hn1 : ({ n with status := .unchanged, cancelFlag := true } : Nucleo) = n1
   have e_w : n1.worker = n.worker := by rw [← hn1]
   have e_p : n1.pending = n.pending := by rw [← hn1]
@@ -324,9 +545,9 @@ theorem cancelFirst07 (n : Nucleo) (h : P07 score S n) (o : TickOracle)
   have e_cur : n1.cur = n.cur := by rw [← hn1]
   have e_st : n1.state = n.state := by rw [← hn1]
   have hfj := joinRun_fields n1 o.run0
-  obtain ⟨j1, j2, j3, _, _⟩ := joinRun07 score len S n1 (by rw [e_p, e_w]; exact h.btw) (by rw [e_p, e_w]; exact h.sta) o.run0 true
-    (by rw [e_p, e_w]; exact hr)
-  generalize hm : n1.joinRun o.run0 = m at hfj j1 j2 j3
+  obtain ⟨j1, j2, j3, _, _, j6⟩ := joinRun07 score len S emp hemp n1 (by rw [e_p, e_w]; exact h.btw) (by rw [e_p, e_w]; exact h.sta)
+    (by rw [e_p, e_w]; exact h.pub) o.run0 true (by rw [e_p, e_w]; exact hr)
+  generalize hm : n1.joinRun o.run0 = m at hfj j1 j2 j3 j6
   have hwa : m.workerAfter.hits = m.worker.hits ∧ m.workerAfter.inFlight = m.worker.inFlight ∧
       m.workerAfter.lastSnapshot = m.worker.lastSnapshot ∧ m.workerAfter.stream = m.worker.stream := by
     unfold Nucleo.workerAfter; split <;> exact ⟨rfl, rfl, rfl, rfl⟩
@@ -343,7 +564,7 @@ theorem cancelFirst07 (n : Nucleo) (h : P07 score S n) (o : TickOracle)
   have hsc : m.state = n.state := by rw [hfj.1, e_st]
   have hmp : m.pattern = n.pattern := by rw [hfj.2.2.1, e_pat]
   have hmc : m.cur = n.cur := by rw [hfj.2.2.2.2.2, e_cur]
-  refine ⟨trivial, by rw [hsc], hmp, ?_, by rw [hfj.2.1, ← hn1], hmp, hmc, ?_⟩
+  refine ⟨trivial, by rw [hsc], hmp, ?_, by rw [hfj.2.1, ← hn1], hmp, hmc, ?_, ?_⟩
   · -- the stream handle
     by_cases hcs : m.state.canceled = true
     · simp only [hcs, if_true]; exact hmc
@@ -380,21 +601,33 @@ theorem cancelFirst07 (n : Nucleo) (h : P07 score S n) (o : TickOracle)
         have hnar : Narrows score n.pattern m.worker.pattern := by rw [j2, e_w]; exact h.upd hst hfresh
         exact (hb.loose.narrow score hnar).congr score a1 a2 a3
 
+  · -- the accounted items stay published ones when the worker is not about to be cleared
+    intro hcs
+    have hmcs : m.state.canceled = false := by rw [hsc]; exact hcs
+    simp only [hmcs, Bool.false_eq_true, if_false]
+    show Pub (S m.workerAfter.stream) _
+    rw [a4]
+    exact j6.congr a2 a3
 
 /-- the second `tick_inner` of a cancelling tick -/
-theorem tickSecond07 (n2 : Nucleo) (o : TickOracle) (p : Pending) (hf : n2.state = .fresh) (hp : n2.pending = some p)
-    (hsta : StartOk score S p n2.worker) (hw : n2.worker.pattern = n2.pattern) (hs : n2.worker.stream = n2.cur)
+theorem tickSecond07 (hemp : EmpOk score emp) (n2 : Nucleo) (o : TickOracle) (p : Pending) (hf : n2.state = .fresh) (hp : n2.pending = some p)
+    (hsta : StartOk score S p n2.worker) (hpub : p.cleared = false → Pub (S n2.worker.stream) n2.worker)
+    (hw : n2.worker.pattern = n2.pattern) (hs : n2.worker.stream = n2.cur)
     (hst : n2.status = .unchanged)
-    (hr : RunsAs score len S p n2.worker (o.run1 n2.worker) false) :
+    (hr : RunsAs score len S emp p n2.worker (o.run1 n2.worker) false) :
     P07 score S (n2.tickSecond o).1 ∧ ((n2.tickSecond o).2.running = false → Settled score S (n2.tickSecond o).1 n2.pattern o.count2) := by
   unfold Nucleo.tickSecond
   by_cases hl : o.lock2 = true
   · simp only [hl, if_true]
     have hfj := joinRun_fields n2 o.run1
-    obtain ⟨j1, j2, j3, j4, _⟩ := joinRun07 score len S n2 (fun h => by rw [hp] at h; cases h)
-      (fun q hq => by rw [hp] at hq; cases hq; exact hsta) o.run1 false (fun q hq => by rw [hp] at hq; cases hq; exact hr)
+    have hpubd : (∃ st, n2.pending = some ⟨st, true⟩) ∨ Pub (S n2.worker.stream) n2.worker := by
+      cases hcl : p.cleared with
+      | true => exact Or.inl ⟨p.status, by rw [hp, ← hcl]⟩
+      | false => exact Or.inr (hpub hcl)
+    obtain ⟨j1, j2, j3, j4, _, j6⟩ := joinRun07 score len S emp hemp n2 (fun h => by rw [hp] at h; cases h)
+      (fun q hq => by rw [hp] at hq; cases hq; exact hsta) hpubd o.run1 false (fun q hq => by rw [hp] at hq; cases hq; exact hr)
     have hj : Joined07 score S (n2.joinRun o.run1) := by
-      refine ⟨hfj.2.2.2.1, j1, fun _ => Or.inl ?_⟩
+      refine ⟨hfj.2.2.2.1, j1, j6, fun _ => Or.inl ?_⟩
       have := j4 (by rw [hp]; rfl)
       exact ⟨this.1, this.2 rfl⟩
     have ls := locked_step07 score S (n2.joinRun o.run1) o.count2 hj (by rw [hfj.1]; exact hf)
@@ -410,31 +643,35 @@ theorem tickSecond07 (n2 : Nucleo) (o : TickOracle) (p : Pending) (hf : n2.state
     unfold tickInnerTimeout
     have hpn : ¬ (n2.pending = none) := by rw [hp]; intro e; cases e
     have hsu : ¬ (n2.status = .update) := by rw [hst]; intro e; cases e
+    have hpubd : (∃ st, n2.pending = some ⟨st, true⟩) ∨ Pub (S n2.worker.stream) n2.worker := by
+      cases hcl : p.cleared with
+      | true => exact Or.inl ⟨p.status, by rw [hp, ← hcl]⟩
+      | false => exact Or.inr (hpub hcl)
     refine ⟨⟨fun h => absurd h hpn, fun h => absurd h hpn, fun _ _ => hw, fun h => absurd h hsu, fun _ => hs,
-      fun h => absurd h hpn, fun q hq => ?_⟩, fun hh => (by simp at hh)⟩
+      fun h => absurd h hpn, fun q hq => ?_, hpubd⟩, fun hh => (by simp at hh)⟩
     have hq' : n2.pending = some q := hq
     rw [hp] at hq'; cases hq'; exact hsta
 
 /-- **one `tick`**: the invariant is preserved, and a tick that reports `running = false` leaves the snapshot equal to
     the worker's result, which is exactly right for the current pattern on the current stream and accounts for at least
     as many items as the reservation counter showed -/
-theorem P07.tick {n : Nucleo} (h : P07 score S n) (o : TickOracle) (env : TickEnv07 score len S n o) :
+theorem P07.tick (hemp : EmpOk score emp) {n : Nucleo} (h : P07 score S n) (o : TickOracle) (env : TickEnv07 score len S emp n o) :
     P07 score S (n.tick o).1 ∧
     ((n.tick o).2.running = false → Settled score S (n.tick o).1 n.pattern (o.decidingCount n)) := by
   unfold Nucleo.tick TickOracle.decidingCount
   simp only
   have hc0 : ({ n with shouldNotify := false } : Nucleo).tickCancels = n.tickCancels := rfl
   rw [hc0]
-  have h0 : P07 score S ({ n with shouldNotify := false } : Nucleo) := ⟨h.idle, h.mirror, h.pat, h.upd, h.str, h.btw, h.sta⟩
+  have h0 : P07 score S ({ n with shouldNotify := false } : Nucleo) := ⟨h.idle, h.mirror, h.pat, h.upd, h.str, h.btw, h.sta, h.pub⟩
   by_cases hc : n.tickCancels = true
   · simp only [hc, if_true]
     have hr0 : ∀ p, ({ n with shouldNotify := false } : Nucleo).pending = some p →
-        RunsAs score len S p ({ n with shouldNotify := false } : Nucleo).worker (o.run0 ({ n with shouldNotify := false } : Nucleo).worker) true := by
+        RunsAs score len S emp p ({ n with shouldNotify := false } : Nucleo).worker (o.run0 ({ n with shouldNotify := false } : Nucleo).worker) true := by
       intro p hp
       have := env.run0 p hp
       rw [hc] at this; exact this
-    obtain ⟨f1, f2, f3, f4, f5, f6, f7, f8⟩ := cancelFirst07 score len S _ h0 o hr0 hc
-    have st := tickSecond07 score len S _ o _ f1 f2 f8 (by rw [f3, f6]) (by rw [f4, f7]) f5 (env.run1 hc _ f2)
+    obtain ⟨f1, f2, f3, f4, f5, f6, f7, f8, f9⟩ := cancelFirst07 score len S emp hemp _ h0 o hr0 hc
+    have st := tickSecond07 score len S emp hemp _ o _ f1 f2 f8 f9 (by rw [f3, f6]) (by rw [f4, f7]) f5 (env.run1 hc _ f2)
     rw [f6] at st
     exact st
   · have hc' : n.tickCancels = false := by simpa using hc
@@ -444,11 +681,11 @@ theorem P07.tick {n : Nucleo} (h : P07 score S n) (o : TickOracle) (env : TickEn
       simp only [Bool.or_eq_false_iff, ne_eq, decide_eq_false_iff_not, Decidable.not_not] at hc'
       exact ⟨by simpa using hc'.1, state_fresh_of_not_canceled _ hc'.2⟩
     have hr0 : ∀ p, ({ n with shouldNotify := false } : Nucleo).pending = some p →
-        RunsAs score len S p ({ n with shouldNotify := false } : Nucleo).worker (o.run0 ({ n with shouldNotify := false } : Nucleo).worker) false := by
+        RunsAs score len S emp p ({ n with shouldNotify := false } : Nucleo).worker (o.run0 ({ n with shouldNotify := false } : Nucleo).worker) false := by
       intro p hp
       have := env.run0 p hp
       rw [hc'] at this; exact this
-    exact tickPlain07 score len S _ h0 o hr0 hst.1 hst.2
+    exact tickPlain07 score len S emp hemp _ h0 o hr0 hst.1 hst.2
 
 theorem tickInnerLocked_pattern (m : Nucleo) (c : Bool) (st : PStatus) (k : Nat) : (tickInnerLocked m c st k).1.pattern = m.pattern := by
   unfold tickInnerLocked; split <;> rfl
@@ -474,31 +711,31 @@ theorem tick_pattern (n : Nucleo) (o : TickOracle) : (n.tick o).1.pattern = n.pa
 /-! ## every history -/
 
 def EvOk07 (n : Nucleo) : Ev → Prop
-  | .tick o => TickEnv07 score len S n o
+  | .tick o => TickEnv07 score len S emp n o
   | .reparse p s => ReparseOk score n p s
   | _ => True
 
 def okHist07 : Nucleo → List Ev → Prop
   | _, [] => True
-  | n, e :: es => EvOk07 score len S n e ∧ okHist07 (applyEv n e) es
+  | n, e :: es => EvOk07 score len S emp n e ∧ okHist07 (applyEv n e) es
 
-theorem P07.step {n : Nucleo} (h : P07 score S n) (e : Ev) (hok : EvOk07 score len S n e) : P07 score S (Nu.applyEv n e) := by
+theorem P07.step (hemp : EmpOk score emp) {n : Nucleo} (h : P07 score S n) (e : Ev) (hok : EvOk07 score len S emp n e) : P07 score S (Nu.applyEv n e) := by
   cases e with
   | inj k => exact h.addInjector score S k
   | clone a b => exact h.cloneInjector score S a b
   | drop k => exact h.dropInjector score S k
   | restart c => exact h.restart score S c
   | reparse p s => exact h.reparse score S p s hok
-  | tick o => exact (h.tick score len S o hok).1
+  | tick o => exact (h.tick score len S emp hemp o hok).1
 
-theorem P07.history : ∀ (evs : List Ev) (n : Nucleo), P07 score S n → okHist07 score len S n evs → P07 score S (evs.foldl Nu.applyEv n) := by
+theorem P07.history (hemp : EmpOk score emp) : ∀ (evs : List Ev) (n : Nucleo), P07 score S n → okHist07 score len S emp n evs → P07 score S (evs.foldl Nu.applyEv n) := by
   intro evs
   induction evs with
   | nil => intro n h _; exact h
   | cons e es ih =>
     intro n h hok
     simp only [List.foldl_cons]
-    exact ih _ (h.step score len S e hok.1) hok.2
+    exact ih _ (h.step score len S emp hemp e hok.1) hok.2
 
 /-- **C07 at the level of the protocol**: after every history of injector(), clone, drop, reparse (an `Update` status
     only for an edit that narrows the matches), restart(true|false) and tick — ticks that complete or time out, runs
@@ -507,8 +744,8 @@ theorem P07.history : ∀ (evs : List Ev) (n : Nucleo), P07 score S n → okHist
     items of the current stream, in the worker's sorted order, for the current pattern, counting at least as many items
     as the reservation counter showed; with nothing in flight that is the from-scratch result over all of them
     (`C07_quiescent`). -/
-theorem C07_protocol (evs : List Ev) (hok : okHist07 score len S Nucleo.new evs) (o : TickOracle)
-    (env : TickEnv07 score len S (evs.foldl applyEv Nucleo.new) o)
+theorem C07_protocol (hemp : EmpOk score emp) (evs : List Ev) (hok : okHist07 score len S emp Nucleo.new evs) (o : TickOracle)
+    (env : TickEnv07 score len S emp (evs.foldl applyEv Nucleo.new) o)
     (hrun : ((evs.foldl applyEv Nucleo.new).tick o).2.running = false) :
     let n' := ((evs.foldl applyEv Nucleo.new).tick o).1
     n'.snapshot.hits.Perm (idealHits score (S n'.cur) n'.pattern (processed n'.worker)) ∧
@@ -517,8 +754,8 @@ theorem C07_protocol (evs : List Ev) (hok : okHist07 score len S Nucleo.new evs)
     (n'.worker.inFlight = [] → n'.snapshot.hits.Perm (idealHits score (S n'.cur) n'.pattern (List.range n'.worker.lastSnapshot)) ∧
        n'.snapshot.itemCount = n'.worker.lastSnapshot) := by
   intro n'
-  have inv := P07.history score len S evs Nucleo.new (P07.new score S) hok
-  obtain ⟨_, hs⟩ := inv.tick score len S o env
+  have inv := P07.history score len S emp hemp evs Nucleo.new (P07.new score S) hok
+  obtain ⟨_, hs⟩ := inv.tick score len S emp hemp o env
   obtain ⟨s1, s2, s3, s4, s5⟩ := hs hrun
   have hpat : n'.pattern = (evs.foldl applyEv Nucleo.new).pattern := tick_pattern (evs.foldl applyEv Nucleo.new) o
   have e_hits : n'.snapshot.hits = n'.worker.hits := by rw [s1]; rfl
@@ -533,19 +770,20 @@ theorem C07_protocol (evs : List Ev) (hok : okHist07 score len S Nucleo.new evs)
   exact ⟨by rw [e_hits, hpat]; exact q.1, by rw [e_cnt]; exact q.2⟩
 
 
-/-- the hypotheses can be met and the conclusion is reached: the first tick on a new matcher over an empty stream,
-    whose (cleared) run completes in time, reports `running = false` -/
+/-- the hypotheses can be met and the conclusion is reached: the first tick on a new matcher (whose pattern, id 0, is the
+    empty pattern) over an empty stream, whose (cleared) run completes in time, reports `running = false` -/
 example :
-    let score : Nat → Item → Option Nat := fun _ _ => none
+    let score : Nat → Item → Option Nat := fun p _ => if p = 0 then some 0 else none
+    let emp : Nat → Bool := fun p => p == 0
     let len : Item → Nat := fun _ => 0
     let S : Nat → Nat → Option Item := fun _ _ => none
     let obs : Obs := { seen0 := fun _ => none, seen1 := fun _ => none, count := 0, inFlightOrder := id, sawCancel := fun _ => false,
                        sortCanceled := false, shouldNotify := false }
-    let run : Worker → Worker := fun w => (Worker.run score len w .unchanged true false obs).1
+    let run : Worker → Worker := fun w => (Worker.run score len w .unchanged true (emp w.pattern) obs).1
     let o : TickOracle := { count1 := 0, count2 := 0, lock1 := true, lock2 := true, run0 := run, run1 := run }
-    okHist07 score len S Nucleo.new [] ∧ TickEnv07 score len S Nucleo.new o ∧ (Nucleo.new.tick o).2.running = false := by
-  intro score len S obs run o
-  refine ⟨trivial, ⟨fun p hp => by simp [Nucleo.new] at hp, fun _ p hp => ?_⟩, by decide⟩
+    EmpOk score emp ∧ okHist07 score len S emp Nucleo.new [] ∧ TickEnv07 score len S emp Nucleo.new o ∧ (Nucleo.new.tick o).2.running = false := by
+  intro score emp len S obs run o
+  refine ⟨fun p it h => by simp [emp] at h; simp [score, h], trivial, ⟨fun p hp => by simp [Nucleo.new] at hp, fun _ p hp => ?_⟩, by decide⟩
   have hp' : p = ⟨.unchanged, true⟩ := by
     have : (({ Nucleo.new with shouldNotify := false } : Nucleo).tickCancelFirst o).1.pending = some ⟨.unchanged, true⟩ := by decide
     rw [this] at hp; exact (Option.some.inj hp).symm
